@@ -64,6 +64,9 @@ type CommitRec struct {
 	EndIdx   int // log index of the end marker
 	OK       bool
 	TxID     uint64
+	// AltTxIDs: further header txids that describe the same state (open-time
+	// maintenance runs up to two internal transactions inside one Open call)
+	AltTxIDs []uint64
 	State    *MState // committed model state after this commit (if OK)
 }
 
@@ -473,11 +476,29 @@ func (r *Runner) reopen(ro *Reopen) *Violation {
 			opts.Flags |= txfile.FlagUnboundMaxSize
 		}
 	}
+	beginIdx := 0
+	if r.O.TrackCommits && ro.Mode == 2 {
+		r.Disk.Mark("cb", r.curItem)
+		beginIdx = r.Disk.LogLen() - 1
+	}
 	f, err := txfile.VerifOpen(r.Disk, opts)
 	if err != nil {
 		return violationf("reopen", r.curItem, "reopen (mode %d) failed: %v", ro.Mode, err)
 	}
 	r.F = f
+	if r.O.TrackCommits && ro.Mode == 2 {
+		// the max-size update runs internal transactions: same contents, new header txid(s)
+		r.Disk.Mark("ce", r.curItem)
+		endIdx := r.Disk.LogLen() - 1
+		if now := f.VerifState().TxID; now != before.TxID {
+			rec := CommitRec{Item: r.curItem, BeginIdx: beginIdx, EndIdx: endIdx, OK: true, TxID: now, State: r.C.Clone()}
+			for id := before.TxID + 1; id != now; id++ {
+				rec.AltTxIDs = append(rec.AltTxIDs, id)
+			}
+			r.Commits = append(r.Commits, rec)
+			r.count("resize-commit-tracked")
+		}
+	}
 	r.count("reopen")
 	if ro.Mode == 2 {
 		r.curMax = ro.NewMax
